@@ -827,6 +827,33 @@ pub fn run_case<W: World>(w: &mut W, g: &Group, sp: usize, st: &mut Stats) -> Ve
     }
     drop(acts);
 
+    // chmod of the directory that holds the link, recursive by default and without follow: the link is met on
+    // the way, and a target that lies outside that directory keeps its mode
+    {
+        let dir_l = parent_of(&abs_l);
+        let top = if prefix == "/" { String::new() } else { prefix.trim_end_matches('/').to_string() };
+        if dir_l.len() > top.len() && dir_l != "/" && !is_under(&abs_t, &dir_l) && !is_under(&dir_l, &abs_t) && obs1.contains_key(&abs_t) {
+            type ActD<'x, V> = (&'static str, Box<dyn Fn(&V) -> RvResult<()> + 'x>);
+            let acts: Vec<ActD<W::V>> = vec![
+                ("chmod(dir(link), 0o750)", Box::new(|fs: &W::V| fs.chmod(&dir_l, 0o750))),
+                ("chmod_b(dir(link)).all(0o700)", Box::new(|fs: &W::V| fs.chmod_b(&dir_l)?.all(0o700).exec())),
+            ];
+            for (form, act) in &acts {
+                fresh(w, &mut r);
+                let op = "chmod(dir(link)) without follow";
+                if r.call(op, || act(w.fs())).is_some() {
+                    let obs2 = w.observe();
+                    for (k, n) in obs1.iter().filter(|(k, _)| is_under(k, &abs_t) && !k.starts_with('\0')) {
+                        if obs2.get(k).map(|x| &x.desc) != Some(&n.desc) {
+                            r.bad(op, "alters the target", format!("{}: {} was [{}] now [{}]", form, k, n.desc, obs2.get(k).map(|x| x.desc.as_str()).unwrap_or("<absent>")));
+                            break;
+                        }
+                    }
+                }
+            }
+        }
+    }
+
     // moves: wherever the link is found afterwards, readlink and readlink_abs still describe one place
     // (what that place is after a move is C09's business; here only the law that ties the two together)
     {
@@ -1137,7 +1164,7 @@ pub fn run(ctx: &Ctx) -> i32 {
         ("evaluations", J::i(states)),
         ("distinct_nontrivial", J::i(nontriv.len() as i64)),
         ("rule", J::s(format!(
-            "positions = all {} paths of depth <= {} over names {{a,b}}; targets = positions + root; every feasible (L, T, kind at creation) configuration ({} configurations over {} (L,T) pairs) x 7 spellings of the target (the last one writes the final component as a variable reference) = {} states per world, 3 worlds (memfs@/, stdfs@sandbox, memfs@sandbox). Each state: symlink + all queries of the statement + readlink*/entry on every non-link; then up to 13 follow-up transitions each from a fresh copy of the state (remove, chmod x2, chown x2 without follow, the same chown x2 after the target itself was given the requested owner, move_p of the link and of each of its ancestor directories to a new name with the readlink/readlink_abs law checked where the link is found afterwards, symlink over the link x3). distinct_nontrivial = (L,T) pairs whose relative navigation from dir(L) to T contains '..' or more than one component or is empty (target == dir(link)), i.e. the link is not next to its target.",
+            "positions = all {} paths of depth <= {} over names {{a,b}}; targets = positions + root; every feasible (L, T, kind at creation) configuration ({} configurations over {} (L,T) pairs) x 7 spellings of the target (the last one writes the final component as a variable reference) = {} states per world, 3 worlds (memfs@/, stdfs@sandbox, memfs@sandbox). Each state: symlink + all queries of the statement + readlink*/entry on every non-link; then up to 15 follow-up transitions each from a fresh copy of the state (chmod of the directory holding the link, recursive and without follow, which must leave a target outside that directory alone; remove, chmod x2, chown x2 without follow, the same chown x2 after the target itself was given the requested owner, move_p of the link and of each of its ancestor directories to a new name with the readlink/readlink_abs law checked where the link is found afterwards, symlink over the link x3). distinct_nontrivial = (L,T) pairs whose relative navigation from dir(L) to T contains '..' or more than one component or is empty (target == dir(link)), i.e. the link is not next to its target.",
             tree::namespace(&NAMES, depth).len(), depth, n, pairs.len(), expect_states
         ))),
         ("per_world", J::obj([
